@@ -770,4 +770,11 @@ theorem row_escaped_pipe_positions_ascend : type_of% @GM.Props.ConvertXE2E.row_e
     "the recorded positions ascend" is the order ACROSS tables (tree order = source order: a fact about the driver). -/
 theorem table_escaped_pipe_positions_ascend : type_of% @GM.Props.ConvertXE2E.table_escaped_pipe_positions_ascend := @GM.Props.ConvertXE2E.table_escaped_pipe_positions_ascend
 
+/-- (re-export of `GM.Props.ConvertNPX.esc_ascending_of_spans`) round 4, the tree-level half of the escaped-pipe clause: if the node ids of the final store can be labelled by source spans
+    `[lo id, hi id)` (`SpanOK`: a node's own recorded positions ascend inside its span and lie before its children's spans; children's
+    spans are nested in the parent's and disjoint in child-list order), then `escOfTree` of the tree is strictly ascending. What is
+    still missing is the DRIVER fact that such a labelling exists (children appended in source order, the Table inserted directly
+    behind its paragraph). -/
+theorem esc_ascending_of_spans : type_of% @GM.Props.ConvertNPX.esc_ascending_of_spans := @GM.Props.ConvertNPX.esc_ascending_of_spans
+
 end GM.Props.C01
